@@ -413,6 +413,70 @@ theorem loop_segs_ne_nil {σ : Type} (cfg : Cfg) (complete : List (Bytes → Boo
   split <;> simp
 
 
+/-! ## splitting flat traces -/
+
+/-- an element of a `flatMap` lies in the image of one of the list's members -/
+theorem flatMap_split {α β : Type} (f : α → List β) (l : List α) (pre post : List β) (a : β)
+    (h : l.flatMap f = pre ++ a :: post) :
+    ∃ lp g ls p0 s0, l = lp ++ g :: ls ∧ f g = p0 ++ a :: s0 ∧
+      pre = lp.flatMap f ++ p0 ∧ post = s0 ++ ls.flatMap f := by
+  induction l generalizing pre with
+  | nil => simp at h
+  | cons g l' ih =>
+    simp only [List.flatMap_cons] at h
+    rcases List.append_eq_append_iff.mp h with ⟨a', h1, h2⟩ | ⟨c', h1, h2⟩
+    · obtain ⟨lp, g', ls, p0, s0, e1, e2, e3, e4⟩ := ih a' h2
+      exact ⟨g :: lp, g', ls, p0, s0, by simp [e1], e2, by simp [h1, e3], e4⟩
+    · cases c' with
+      | nil =>
+        simp only [List.nil_append] at h2
+        simp only [List.append_nil] at h1
+        obtain ⟨lp, g', ls, p0, s0, e1, e2, e3, e4⟩ := ih [] (by simpa using h2.symm)
+        refine ⟨g :: lp, g', ls, p0, s0, by simp [e1], e2, ?_, e4⟩
+        simp only [List.flatMap_cons, List.append_assoc, ← e3, List.append_nil]
+        exact h1.symm
+      | cons c c'' =>
+        simp only [List.cons_append, List.cons.injEq] at h2
+        exact ⟨[], g, l', pre, c'', rfl, by rw [h1, h2.1], by simp, h2.2⟩
+
+def isWrite : Ev → Bool
+  | .write _ _ => true
+  | .deliver _ => false
+
+theorem isWrite_dels (cs : List Bytes) : ∀ y ∈ dels cs, isWrite y = false := by
+  intro y hy
+  simp only [dels, List.mem_map] at hy
+  obtain ⟨c, _, rfl⟩ := hy
+  rfl
+
+/-- where a write can sit inside one segment's trace -/
+theorem seg_trace_split (g : Seg) (pre post : List Ev) (x : Bytes) (r : Bool)
+    (h : g.trace = pre ++ Ev.write x r :: post) :
+    (pre = [] ∧ x = g.input ∧ r = g.hidden) ∨
+    (∃ rt, g.ret = some rt ∧ pre = Ev.write g.input g.hidden :: dels g.echo ∧ x = rt ∧ r = false ∧
+      post = dels g.resp) := by
+  cases pre with
+  | nil =>
+    left
+    simp only [Seg.trace, List.nil_append, List.cons.injEq, Ev.write.injEq] at h
+    exact ⟨rfl, h.1.1.symm, h.1.2.symm⟩
+  | cons p pre' =>
+    right
+    simp only [Seg.trace, List.cons_append, List.cons.injEq] at h
+    obtain ⟨hp, h⟩ := h
+    cases hr : g.ret with
+    | none =>
+      simp only [hr, List.append_nil] at h
+      have : Ev.write x r ∈ dels g.echo := by rw [h]; simp
+      exact absurd this (write_not_mem_dels x r g.echo)
+    | some rt =>
+      simp only [hr] at h
+      obtain ⟨e1, e2, e3⟩ := split_unique isWrite pre' post (dels g.echo) (dels g.resp) _ _ h.symm rfl
+        (isWrite_dels _) (isWrite_dels _)
+      simp only [Ev.write.injEq] at e2
+      exact ⟨rt, rfl, by rw [← hp, e1], e2.1, e2.2, e3⟩
+
+
 /-! ## well-formed scripted dialogues -/
 
 theorem readC_exact (P : Bytes → Bool) (pre chunks rest : List Bytes)
